@@ -174,7 +174,7 @@ def run(ctx):
             n_targets += 1
         # single-particle wrappers of log_prob defined on the class
         for name, w in c.methods.items():
-            if name != "log_prob" and "log_prob" in name:
+            if name != "log_prob" and "log_prob" in name and len(w.params) > 1:  # takes a point: a target; `_get_compiled_log_prob(self)` is not
                 z = T.atom(w.params[1])
                 bt = T.atom(w.params[2]) if len(w.params) > 2 else T.atom("beta")
                 check_target(ctx, repo, c, w, True, bt, z, f"{c.ident}.{name}")
@@ -197,10 +197,17 @@ def run(ctx):
             for v in vals:
                 if v[0] == "attr" and v[1] == SELF and v[2] in targets:
                     uses.append((e, v))
+                elif (e.callee.endswith("partial") and v is vals[0]) or v[0] == "phi":
+                    # the target reached through a getter / wrapper (`partial(self._compiled(), beta=beta)`, `jit(self._jax_log_prob)`)
+                    inner = [s_ for s_ in T.subterms(v) if s_ and s_[0] == "attr" and s_[1] == SELF and s_[2] in targets]
+                    if inner:
+                        uses.append((e, inner[0]))
         if not uses or beta is None:
             ctx.unknown("C05.bind", f"{c.ident}.mutate", loc_of(mu), "no reference to the class's target density found in mutate")
             continue
         for e, v in uses:
+            if e.callee.rsplit(".", 1)[-1] in ("jit", "filter_jit", "vmap", "checkpoint"):
+                continue  # a compiling / vectorising wrapper: the wrapped target is judged where it is bound to a temperature
             kw = dict(e.kwargs)
             if e.callee.endswith("partial"):
                 bound = kw.get("beta") or (e.args[1] if len(e.args) > 1 else None)
@@ -221,6 +228,10 @@ def run(ctx):
     ctx.floor("kernel bindings in mutate", n_bind, 3)
 
     temp_rule(ctx)
+    from . import cachecoh
+    cachecoh.rule(ctx, "C05.stale", ("aspire.samplers",),
+                  "a kernel target compiled or cached once keeps the preconditioning map, proposal and callables of the moment it was built: later iterations "
+                  "evaluate the tempered density of an earlier fit")
     # ---- closures that stand in for the user's likelihood / prior (pool wrappers, kernel targets built in a loop) must bind per iteration
     from .common import late_bound_closures
     lb = []
@@ -302,7 +313,13 @@ MUTANTS += [
     M("NaN map that also makes -inf finite", _BJ, "log_prob = self.xp.where(\n            self.xp.isnan(log_prob), -self.xp.inf, log_prob\n        )", "log_prob = self.xp.nan_to_num(log_prob, nan=-self.xp.inf)", "C05.nan"),
     M("minipcn kernel built without the target", _MP, "log_prob_fn=log_prob_fn,\n            step_fn", "log_prob_fn=self.log_prior,\n            step_fn", "C05.bind"),
 ]
+MUTANTS += [
+    M("kernel target compiled once and kept across iterations", "src/aspire/samplers/smc/blackjax.py", "log_prob_fn = partial(self._jax_log_prob, beta=beta)",
+      "if getattr(self, \"_compiled\", None) is None:\n            self._compiled = jax.jit(self._jax_log_prob)\n        log_prob_fn = partial(self._compiled, beta=beta)", "C05.stale"),
+]
 NEUTRALS = [
+    M("kernel target compiled afresh in every mutation step", "src/aspire/samplers/smc/blackjax.py", "log_prob_fn = partial(self._jax_log_prob, beta=beta)",
+      "self._compiled = jax.jit(self._jax_log_prob)\n        log_prob_fn = partial(self._compiled, beta=beta)"),
     M("pool wrappers built in a loop with the callable bound per iteration", "src/aspire/utils.py",
       "self.aspire_instance.log_likelihood = partial(\n                self.original_log_likelihood, map_fn=self.pool.map\n            )",
       "for name in [\"log_likelihood\"]:\n                original = getattr(self.aspire_instance, name)\n                setattr(self.aspire_instance, name, lambda samples, original=original, **kw: original(samples, map_fn=self.pool.map, **kw))"),
